@@ -1,7 +1,8 @@
 (* C15 - downloaded files are always written inside the download directory.
    Only property theorems here, each closed by [exact]. *)
 From Coq Require Import List NArith ZArith Bool Lia.
-From Wpull Require Import Model.Path Proofs.PathProofs.
+From Wpull Require Import Model.Path Model.PathWriter Proofs.PathProofs Proofs.PathNormProofs
+  Proofs.PathWriterProofs Proofs.PathUrlProofs.
 Import ListNotations.
 Open Scope N_scope.
 
@@ -72,6 +73,118 @@ Theorem C15_cd_path_inside_dir :
 Proof. exact cd_path_inside_dir. Qed.
 Print Assumptions C15_cd_path_inside_dir.
 
+(* ====================================================================== *)
+(* From the URL string to the paths handed to os.makedirs / open / os.symlink *)
+(* ====================================================================== *)
+(* Further definitions (Proofs/PathNormProofs.v, Proofs/PathWriterProofs.v):
+     initial_slashes p, nstack p : what posixpath.normpath makes of p - the number
+                        of leading slashes it keeps (0, 1 or 2) and its component
+                        stack in reading order;
+     placed c i st0 f : f = h ++ n where h is empty or ends in "/", normpath
+                        resolves h to (i, st0 ++ dirs), every name in dirs and n
+                        is a safe_component;
+     inside c i st0 f : normpath resolves f to (i, st0 ++ comps) with comps
+                        non-empty and all safe (inside_or_root: comps may be []);
+     root_clean isfile i st0 : ".", the all-slash paths and the prefixes of the
+                        normalised root are not regular files (PathNamer refuses a
+                        root that is a file);
+     tame c s         : the suffix s has no "/", no "\" in windows mode, no control
+                        character under no_control, and is not made of dots only;
+     url_ok c u       : urlsplit's scheme is not empty when protocol directories
+                        are on, and its hostname is None or not empty;
+     starts_with_scheme url : url = "http:" ++ _ | "https:" ++ _ | "ftp:" ++ _. *)
+
+(* PathNamer.get_filename from the URL STRING, through the concrete model of
+   CPython 3.12's urlsplit / SplitResult.hostname / .port: no hypothesis on
+   urlsplit's result remains; bracket_ok / netloc_ok (library checks that can only
+   raise) are arbitrary. *)
+Theorem C15_url_path_inside_root :
+  forall (bracket_ok netloc_ok : str -> bool) sha1hex pylower pyupper,
+    sha1_shape sha1hex -> case_map_safe pylower -> case_map_safe pyupper ->
+    forall (c : cfg) (root url : str) (is_ftp : bool) (path : str),
+      index c <> [] ->
+      (protocol c = true -> starts_with_scheme url) ->
+      get_filename_url bracket_ok netloc_ok pylower sha1hex pyupper c root url is_ftp = Ok path ->
+      exists parts, parts <> [] /\ Forall (safe_component c) parts
+                    /\ path = dir_prefix root ++ intercalate [47] parts.
+Proof. exact url_path_inside_root. Qed.
+Print Assumptions C15_url_path_inside_root.
+
+Theorem C15_url_ok_of_url :
+  forall (bracket_ok netloc_ok : str -> bool) (pylower : str -> str),
+    case_map_safe pylower ->
+    forall (c : cfg) (need_port : bool) (url : str) (is_ftp : bool) (u : urlparts),
+      (protocol c = true -> starts_with_scheme url) ->
+      urlparts_of bracket_ok netloc_ok pylower need_port url is_ftp = Ok u -> url_ok c u.
+Proof. exact url_ok_of_url. Qed.
+Print Assumptions C15_url_ok_of_url.
+
+(* Every file-writer session class (Overwrite, Ignore, Timestamping, AntiClobber),
+   every combination of file_continuing / trust_server_names /
+   content_disposition / adjust_extension, every response (scheme, status code,
+   last-hop URL, Content-Disposition header, HTML/CSS detection, restart value),
+   every state of the file system: the file name given to open() - after the
+   ".f" / ".d" / ".N" anti-clobber renaming, the last-response renaming, the
+   Content-Disposition renaming and the ".html"/".css" extension - is placed
+   under the download root. *)
+Theorem C15_session_path_inside_root :
+  forall (fs_isfile fs_isdir fs_exists : str -> bool) sha1hex pylower pyupper,
+    sha1_shape sha1hex -> case_map_safe pylower -> case_map_safe pyupper ->
+    forall (w : wflags) (fuel : nat) (c : cfg) (root : str) (u : urlparts) (r : wresponse) (o : wout) (f : str),
+      index c <> [] -> url_ok c u -> url_ok c (r_url r) ->
+      root_clean fs_isfile (initial_slashes root) (nstack root) ->
+      session_run sha1hex pylower pyupper fs_isfile fs_isdir fs_exists w fuel c root u r = Ok o ->
+      opened o f ->
+      placed c (initial_slashes root) (nstack root) f.
+Proof. exact session_run_placed. Qed.
+Print Assumptions C15_session_path_inside_root.
+
+(* the name process_request chooses (it stays the session's file name when the
+   response opens nothing) *)
+Theorem C15_request_name_inside_root :
+  forall (fs_isfile fs_isdir fs_exists : str -> bool) sha1hex pylower pyupper,
+    sha1_shape sha1hex -> case_map_safe pylower -> case_map_safe pyupper ->
+    forall (w : wflags) (fuel : nat) (c : cfg) (root : str) (u : urlparts) (f : str) (cont : bool),
+      index c <> [] -> url_ok c u ->
+      root_clean fs_isfile (initial_slashes root) (nstack root) ->
+      process_request_name sha1hex pylower pyupper fs_isfile fs_isdir fs_exists w fuel c root u = Ok (Some (f, cont)) ->
+      placed c (initial_slashes root) (nstack root) f.
+Proof. exact process_request_placed. Qed.
+Print Assumptions C15_request_name_inside_root.
+
+(* what "placed" means: lexically inside the root, component by component; and
+   the directory of a placed file - the argument of os.makedirs - is the root or
+   inside it *)
+Theorem C15_placed_inside :
+  forall (c : cfg) (i : nat) (st0 : list str) (f : str),
+    placed c i st0 f -> inside c i st0 f /\ inside_or_root c i st0 (posix_dirname f).
+Proof. exact placed_inside. Qed.
+Print Assumptions C15_placed_inside.
+
+Theorem C15_makedirs_inside_root :
+  forall (fs_exists : str -> bool) (c : cfg) (i : nat) (st0 : list str) (f d : str),
+    placed c i st0 f -> makedirs_arg fs_exists f = Some d -> inside_or_root c i st0 d.
+Proof. exact makedirs_inside. Qed.
+Print Assumptions C15_makedirs_inside_root.
+
+(* extra_resource_path(suffix) (".youtube-dl", ".snapshot.html", "-new", ".orig" ...) *)
+Theorem C15_extra_resource_inside_root :
+  forall (c : cfg) (i : nat) (st0 : list str) (f s p : str),
+    placed c i st0 f -> tame c s -> extra_resource_path f s = Some p -> placed c i st0 p.
+Proof. exact extra_resource_placed. Qed.
+Print Assumptions C15_extra_resource_inside_root.
+
+(* processor/ftp.py _make_symlink: the link created for a listing entry, for every
+   server-supplied link name *)
+Theorem C15_symlink_inside_root :
+  forall sha1hex pylower pyupper,
+    sha1_shape sha1hex -> case_map_safe pylower -> case_map_safe pyupper ->
+    forall (c : cfg) (i : nat) (st0 : list str) (f link p : str),
+      placed c i st0 f ->
+      symlink_path sha1hex pylower pyupper c f link = Ok (Some p) -> placed c i st0 p.
+Proof. exact symlink_placed. Qed.
+Print Assumptions C15_symlink_inside_root.
+
 (* ---- non-vacuity ---------------------------------------------------- *)
 (* oracle instances satisfying the hypotheses *)
 Definition toy_sha (_ : list N) : str := repeat 97 40.
@@ -118,4 +231,65 @@ Example C15_nonvacuous_cd :
   cd_component toy_sha (map ascii_lower) (map ascii_upper) ex_cfg true
     (Some [102; 105; 108; 101; 110; 97; 109; 101; 61; 34; 46; 46; 47; 46; 46; 47; 101; 34])
   = Ok (Some [46; 46; 37; 50; 102; 46; 46; 37; 50; 102; 101]).
+Proof. vm_compute. reflexivity. Qed.
+
+(* the same URL as a string, through the urlsplit model *)
+Definition ex_url_text : str :=
+  [102; 116; 112; 58; 47; 47; 72; 58; 50; 49; 50; 49; 47; 46; 46; 37; 50; 70; 37; 50; 101; 37; 50; 69; 47; 97; 37; 50; 70; 98; 47;
+   37; 50; 69; 37; 50; 69; 63; 120; 61; 47].
+Example C15_nonvacuous_url_text :
+  starts_with_scheme ex_url_text
+  /\ get_filename_url (fun _ => true) (fun _ => true) (map ascii_lower) toy_sha (map ascii_upper) ex_cfg [111; 117; 116] ex_url_text true
+     = get_filename toy_sha (map ascii_lower) (map ascii_upper) ex_cfg [111; 117; 116] ex_url
+  /\ exists p, get_filename_url (fun _ => true) (fun _ => true) (map ascii_lower) toy_sha (map ascii_upper) ex_cfg [111; 117; 116]
+                 ex_url_text true = Ok p.
+Proof.
+  split; [|split].
+  - exists lit_ftp. eexists. split; [reflexivity|auto].
+  - vm_compute. reflexivity.
+  - eexists. vm_compute. reflexivity.
+Qed.
+
+(* a session: anti-clobber writer, root "out", http://h/d/a?b with the directory
+   "out/h/d" existing as a regular FILE "out/h" (so ".d" is appended) and
+   "out/h.d/d/a?b" already present (so ".1" is appended); the response carries
+   Content-Disposition: filename="../x" and is HTML (".html" appended). *)
+Definition ex_fs_file (p : str) : bool := str_eqb p [111; 117; 116; 47; 104].                      (* "out/h" *)
+Definition ex_fs_exists (p : str) : bool :=
+  str_eqb p [111; 117; 116; 47; 104] || str_eqb p [111; 117; 116; 47; 104; 46; 100; 47; 100; 47; 97; 63; 98].
+Definition ex_cfg2 : cfg :=
+  {| use_dir := true; cut := 0%Z; protocol := false; hostname_dir := true; os := Unix;
+     no_control := true; ascii_only := true; case := CaseNone; max_len := 0%Z; index := [105] |}.
+Definition ex_u2 : urlparts :=
+  {| u_scheme := lit_http; u_hostname := Some [104]; u_port := None; u_path := [47; 100; 47; 97]; u_query := [98];
+     u_ends_slash := false; u_is_ftp := false |}.
+Definition ex_resp (hdr : option str) : wresponse :=
+  {| r_ftp := false; r_http := true; r_code := 200%Z; r_url := ex_u2; r_header := hdr; r_html := true; r_css := false;
+     r_restart := false |}.
+Definition ex_w (cd : bool) : wflags :=
+  {| w_kind := WAntiClobber; w_continue := false; w_trust := false; w_cd := cd; w_adjust := true |}.
+
+Example C15_nonvacuous_session :
+  index ex_cfg2 <> [] /\ url_ok ex_cfg2 ex_u2
+  /\ root_clean ex_fs_file (initial_slashes [111; 117; 116]) (nstack [111; 117; 116])
+  /\ session_run toy_sha (map ascii_lower) (map ascii_upper) ex_fs_file (fun _ => false) ex_fs_exists (ex_w false) 5 ex_cfg2
+       [111; 117; 116] ex_u2 (ex_resp None)
+     = Ok (WOpen [111; 117; 116; 47; 104; 46; 100; 47; 100; 47; 97; 63; 98; 46; 49; 46; 104; 116; 109; 108])   (* out/h.d/d/a?b.1.html *)
+  /\ session_run toy_sha (map ascii_lower) (map ascii_upper) ex_fs_file (fun _ => false) ex_fs_exists (ex_w true) 5 ex_cfg2
+       [111; 117; 116] ex_u2 (ex_resp (Some [102; 105; 108; 101; 110; 97; 109; 101; 61; 34; 46; 46; 47; 120; 34]))
+     = Ok (WOpen [111; 117; 116; 47; 104; 46; 100; 47; 100; 47; 46; 46; 37; 50; 70; 120; 46; 104; 116; 109; 108]).  (* out/h.d/d/..%2Fx.html *)
+Proof.
+  split; [discriminate|]. split; [split; [discriminate|discriminate]|]. split.
+  - split; [reflexivity|]. split.
+    + intros k. destruct k; reflexivity.
+    + intros k. vm_compute nstack. vm_compute initial_slashes. cbn [repeat app].
+      destruct k as [|[|k]]; reflexivity.
+  - split; vm_compute; reflexivity.
+Qed.
+
+(* the symlink for the listing entry "../../evil" next to out/h/d/.listing *)
+Example C15_nonvacuous_symlink :
+  symlink_path toy_sha (map ascii_lower) (map ascii_upper) ex_cfg2
+    [111; 117; 116; 47; 104; 47; 100; 47; 46; 108; 105; 115; 116; 105; 110; 103] [46; 46; 47; 46; 46; 47; 101]
+  = Ok (Some [111; 117; 116; 47; 104; 47; 100; 47; 46; 46; 37; 50; 70; 46; 46; 37; 50; 70; 101]).   (* out/h/d/..%2F..%2Fe *)
 Proof. vm_compute. reflexivity. Qed.
